@@ -231,4 +231,34 @@ def init (m : Mode) (scripts : List (List ROp)) (nstops : Nat) : Cfg :=
   | 0 => c
   | n + 1 => enterS m { c with scalls := n }
 
+/-! ### observation of the shared state (trace inclusion, see `CpModel/C20Admit.lean`) -/
+
+def showEv : Ev → String
+  | .start i t => s!"+{i}@t{t + 1}"
+  | .stop i (some t) => s!"-{i}@t{t + 1}"
+  | .stop i none => s!"-{i}@s"
+
+def dash (sep : String) (xs : List String) : String := if xs.isEmpty then "-" else sep.intercalate xs
+
+/-- calls of `stop()` that have returned (`total` = number of calls the stopper makes) -/
+def sret (total : Nat) (c : Cfg) : Nat :=
+  total - c.scalls - (if c.spc == .done then 0 else 1)
+
+/-- the registry in insertion order, the publication journal, calls returned per request thread
+    (`lens` = script lengths), `stop()` calls returned, `stop()` died with RuntimeError -/
+def obsStr (lens : List Nat) (nstops : Nat) (c : Cfg) : String :=
+  let d := (keys c).map fun k => s!"t{k + 1}:{match c.d k with | some v => toString v | none => "?"}"
+  let rs := (List.range c.nr).map fun t => toString (lens.getD t 0 - (c.rs t).ops.length)
+  let s := if nstops = 0 then 0 else sret nstops c
+  s!"D={dash "," d};J={dash "," (c.journal.map showEv)};r={dash "," rs};s={s};E={if c.spc == .rterr then "1" else "0"}"
+
+def keyStr (c : Cfg) : String :=
+  let d := c.slots.map fun s => match s with
+    | some k => s!"{k}:{repr (c.d k)}"
+    | none => "_"
+  let rs := (List.range c.nr).map fun t =>
+    let r := c.rs t
+    s!"{repr r.pc}{r.ops.length}{repr r.i}{r.nstart}.{r.nstop}"
+  s!"{",".intercalate d}|{",".intercalate rs}|{repr c.spc}{c.scalls}|{c.itOn}{c.pos}.{c.expect}.{c.left}|{c.snapOn}{repr c.snap}|{c.key}{repr c.si}|{c.journal.length}"
+
 end CpModel.ThreadMgr
